@@ -166,6 +166,87 @@ def model_exprs(kind, hist, n):
     return exprs
 
 
+def refused_then_run(kind, n, noisy, refusals=1):
+    """a noisy circuit run that asks for the final state is refused (AssertionError) `refusals` times on ONE parameter object, then the
+    corrected call (get_state off) runs; returns (refused as expected, value of shots / num_traj after the refusals, calls, value afterwards,
+    rows or counts)"""
+    import mqt.yaqs.simulator as S
+    from qiskit import QuantumCircuit
+
+    from mqt.yaqs.core.data_structures.networks import MPS
+    from mqt.yaqs.core.data_structures.noise_model import NoiseModel
+    from mqt.yaqs.core.data_structures.simulation_parameters import Observable, StrongSimParams, WeakSimParams
+
+    nm_on = NoiseModel([{"name": "pauli_x", "sites": [0], "strength": 0.1}])
+    qc = QuantumCircuit(2)
+    qc.h(0)
+    p = StrongSimParams([Observable("z", 0)], num_traj=n, get_state=True, show_progress=False) if kind == "strong" else WeakSimParams(shots=n, get_state=True, show_progress=False)
+    saved = S.digital_tjm
+    calls = []
+
+    def stub(args, p=p):
+        calls.append(args[0])
+        if kind == "weak":
+            return {0: int(p.shots)}
+        return [np.full(o.trajectories.shape[1:], 1.0) for o in p.sorted_observables]
+
+    S.digital_tjm = stub
+    refused = 0
+    try:
+        for _ in range(refusals):
+            try:
+                (S._run_strong_sim if kind == "strong" else S._run_weak_sim)(MPS(2), qc, p, nm_on, parallel=False)  # noqa: SLF001
+            except AssertionError:
+                refused += 1
+        between = int(p.num_traj if kind == "strong" else p.shots)
+        calls.clear()
+        p.get_state = False
+        nm = nm_on if noisy else None
+        if kind == "strong":
+            S._run_strong_sim(MPS(2), qc, p, nm, parallel=False)  # noqa: SLF001
+            return refused == refusals, between, len(calls), int(p.num_traj), int(p.observables[0].trajectories.shape[0])
+        S._run_weak_sim(MPS(2), qc, p, nm, parallel=False)  # noqa: SLF001
+        return refused == refusals, between, len(calls), int(p.shots), int(sum(p.results.values()))
+    finally:
+        S.digital_tjm = saved
+
+
+def refused_correspondence(ctx):
+    cases, exprs, impl = [], [], []
+    for k in range(ctx.scale(12, 80)):
+        kind = ("weak", "strong")[k % 2]
+        n, noisy, refusals = int(ctx.rng.integers(2, 9)), bool((k // 2) % 2), 1 + (k // 4) % 2
+        try:
+            impl.append(refused_then_run(kind, n, noisy, refusals))
+        except Exception as e:  # noqa: BLE001
+            impl.append(f"EXC:{type(e).__name__}:{e}")
+        h = g_list(["(true, true)"] * refusals)
+        if kind == "weak":
+            p0 = f"{{| shots := {g_nat(n)}; meas := repeat None {g_nat(n)} |}}"
+            exprs.append(f"let q := weak_attempts {h} {p0} in let r := run_weak {g_bool(noisy)} q in (shots q, snd (fst r), shots (fst (fst r)), snd r)")
+        else:
+            p0 = f"{{| num_traj := {g_nat(n)}; traj_rows := 0%nat |}}"
+            exprs.append(f"let q := strong_attempts {h} {p0} in let r := run_strong {g_bool(noisy)} q in (num_traj q, snd r, num_traj (fst r), traj_rows (fst r))")
+        cases.append({"class": kind, "n": n, "noisy": noisy, "refusals": refusals})
+    vals = common.coq_eval_sharded(HEADER, exprs, tag="c20r")
+    for c, i, v in zip(cases, impl, vals):
+        ctx.case(nontrivial_key=("refused", str(c)), validated=True)
+        ctx.count("refused_then_run_" + c["class"])
+        want = tuple(int(x) for x in v)
+        if isinstance(i, str) or not i[0]:
+            ctx.mismatch("a noisy circuit run that asks for the final state is refused (Params.attempt_*)", c, i, "AssertionError, object unchanged", key="refused")
+            continue
+        if tuple(i[1:]) != want:
+            ctx.mismatch("parameter object after refused calls, and the corrected run, vs Params.weak_attempts / strong_attempts", c, list(i[1:]), list(want), key="refused")
+        # the property itself: the corrected call executes what a fresh object would
+        fresh = c["n"] if c["noisy"] else 1
+        if i[2] != fresh or i[3] != c["n"] or (c["class"] == "weak" and i[4] != c["n"]):
+            ctx.violation("refused-run:" + c["class"], f"{c['class']}: after {c['refusals']} refused call(s) (noisy run with get_state=True -> AssertionError) on a parameter "
+                          f"object with {'shots' if c['class'] == 'weak' else 'num_traj'}={c['n']}, the object holds {i[1]}; the corrected {'noisy' if c['noisy'] else 'noise-free'} run "
+                          f"executed {i[2]} trajectories (fresh object: {fresh}), left {i[3]} on the object and returned {i[4]} rows/counts",
+                          {"oracle": "refused", **c})
+
+
 def regenerate(ctx):
     """coq/Gen/InitGen.v from the current source of Observable.initialize (fail closed)"""
     from gen import translate_init
@@ -309,6 +390,7 @@ def correspond(ctx):
     ctx.rules.append(RULE)
     alias_correspondence(ctx)
     init_rule_correspondence(ctx)
+    refused_correspondence(ctx)
     # layer sampling: the number of result columns of a run depends on the circuit of that run only (Params.run_layers)
     from drivers import C16
 
@@ -613,6 +695,12 @@ def pool_search(ctx):
 
 def replay(ctx, data):
     rp = data.get("replay", data)
+    if rp.get("oracle") == "refused":
+        i = refused_then_run(rp["class"], rp["n"], rp["noisy"], rp["refusals"])
+        fresh = rp["n"] if rp["noisy"] else 1
+        if not i[0] or i[2] != fresh or i[3] != rp["n"] or (rp["class"] == "weak" and i[4] != rp["n"]):
+            return f"after the refused call(s) the object holds {i[1]}; the corrected run executed {i[2]} (fresh: {fresh}), left {i[3]}, returned {i[4]}"
+        return None
     if rp.get("oracle") == "pool":
         return pool_oracle(rp["args"])
     if rp.get("oracle") == "solver-history":
